@@ -44,6 +44,22 @@ CLAIMED["C15"] = ("TLC checks the placement model of thread_names_stream for eve
             "Trusted: TLC, mdparse, /proc/<pid>/task/<tid>/comm as read by the harness, the hook-driven toggling of the ThreadName fail point.",
             "TLA+ model checking (TLC) + scenario-generated dumps + trace validation", "DESIGN.md 4/C15")
 
+CLAIMED["C01"] = ("TLC checks structure (directory shape, references inside, no overlap, intended aliases only) on the DumpSeq model of the pipeline as an "
+            "allocator of objects for every small process shape; real dumps of generated process shapes (1..64 threads, named/unnamed mixes, regions, "
+            "descriptors) x option combinations are decoded by the independent decoder and TLC checks the same clauses on the recorded directory and on "
+            "the offset-sorted list of every RVA-reachable object.",
+            "Trusted: TLC, mdparse (finds the objects by following every RVA), the scenario generator; Linux/x86-64 only (mac writer not covered).",
+            "TLA+ model checking (TLC) + scenario-generated dumps + trace validation", "DESIGN.md 4/C01")
+CLAIMED["C11"] = ("TLC checks SoftNeverHard/SoftErrorsExact on the SoftErrors model for every fault plan; real dumps are taken under all 32 fail-point subsets, "
+            "per-thread name failures, vanished/sandbox threads, an unreferenced principal mapping, a non-UTF-8 thread name and linker data without DT_DEBUG; "
+            "TLC compares the decoded soft-error stream (bag and order) with the model's sequence for the plan and requires every other stream present.",
+            "Trusted: TLC, mdparse, the flattening of the soft-error JSON to paths, failspot's testing client; release-file and cpuinfo copy failures only on the model.",
+            "TLA+ model checking (TLC) + fault enumeration (fail points, natural failures) + trace validation", "DESIGN.md 4/C11")
+CLAIMED["C19"] = ("TLC checks NoCarryOver (C19) and structure on DumpSeq with two dumps per writer; real histories of 2..5 dumps on one MinidumpWriter "
+            "(options changed, blamed thread changed, principal withdrawn, app regions moved) are decoded and each image is judged by TLC as a fresh writer's dump.",
+            "Trusted: TLC, mdparse, /proc/<pid>/mem comparator for region bytes; stacks of threads that keep running are excluded from byte comparison.",
+            "TLA+ model checking (TLC) + history-generated dumps + trace validation", "DESIGN.md 4/C19")
+
 NOT_YET = {
 }
 
